@@ -67,13 +67,15 @@ def gen_scenario(rng: random.Random) -> Dict[str, Any]:
         t = float(rng.choice([0, 100, 900, 2500, 6000, 9000]))
         ops.append({"t": t, "op": "register", "host": h, "svc": i, "spec": s})
         fate = rng.choice(["stay", "stay", "update", "unregister", "update+unregister"])
-        tt = t + rng.choice([1200.0, 2500.0, 5000.0])
+        # the next operation may fall inside the announcement phase of the previous one (announcements at +350/+575/+800 ms
+        # after a registration starts, +0/+225/+450 ms after an update)
+        tt = t + rng.choice([400.0, 480.0, 600.0, 700.0, 1200.0, 2500.0, 5000.0])
         if "update" in fate:
             s2 = R.gen_service(rng, name=s.name, type_=tp, min_ttl=10)
             s2.server = s.server
             s2.addrs4, s2.addrs6 = host_addrs[s.server]
             ops.append({"t": tt, "op": "update", "host": h, "svc": i, "spec": s2})
-            tt += rng.choice([1200.0, 3000.0])
+            tt += rng.choice([40.0, 100.0, 260.0, 300.0, 1200.0, 3000.0])
         if "unregister" in fate:
             ops.append({"t": tt, "op": "unregister", "host": h, "svc": i})
     nb = rng.choice([1, 2, 3, 4])
@@ -96,6 +98,9 @@ def execute(sc: Dict[str, Any], seed: int, drop_index: Optional[int], drop_recei
     from zeroconf import ServiceListener
     from zeroconf.asyncio import AsyncServiceBrowser, AsyncServiceInfo
     policy = simnet.Policy(random.Random(seed ^ 0x1234), max_delay_ms=sc["max_delay"], dup_p=sc["dup_p"], drop_index=drop_index, drop_receiver=drop_receiver)
+    if sc.get("witness_policy"):
+        policy.fixed_unicast_ms = sc["witness_policy"]["unicast_ms"]
+        policy.fixed_multicast_ms = sc["witness_policy"]["multicast_ms"]
     state: Dict[Tuple[int, str], str] = {}
     cb_log: List[Tuple] = []
     lookups: List[Dict[str, Any]] = []
@@ -210,6 +215,7 @@ def execute(sc: Dict[str, Any], seed: int, drop_index: Optional[int], drop_recei
 
         sim.run(main())
         out["tx_count"] = sim.net.tx_count
+        out["deliveries"] = [{"t": d["t"], "host": d["host"], "fd": d["fd"], "sock": d["sock"], "data": d["data"], "tx": d["tx"]} for d in sim.net.deliveries]
         out["trace_kinds"] = [classify_datagram(e) for e in sim.net.trace]
         out["escapes"] = [e for e in sim.net.escapes if "was destroyed but it is pending" not in str(e.get("message"))]
     out["lookups"] = lookups
@@ -247,9 +253,13 @@ def judge(res: Result, sc: Dict[str, Any], out: Dict[str, Any], viol, dropped: s
         want = {n for n, v in out["registered"].items() if v["type"] == b["type"] and v["host"] not in closed}
         live = {k[1] for k, v in out["state"].items() if k[0] == bid and v == "A"}
         if live != want:
-            viol("c07.converged", "browser_not_converged", "browser %d (type %s on %s) reports %r, registered on the link: %r; dropped=%s (%s)" % (
-                bid, b["type"], sc["hosts"][b["host"]]["name"], sorted(live), sorted(want), dropped, scope),
-                diff=("ghost" if live - want else "missing"), dropped=dropped)
+            mech = "-"
+            ghosts = sorted(live - want)
+            if ghosts and not (want - live):
+                mech = ghost_mechanism(out, sc["hosts"][b["host"]]["name"], b["type"], ghosts)
+            viol("c07.converged", "browser_not_converged", "browser %d (type %s on %s) reports %r, registered on the link: %r; dropped=%s (%s); mechanism=%s" % (
+                bid, b["type"], sc["hosts"][b["host"]]["name"], sorted(live), sorted(want), dropped, scope, mech),
+                diff=("ghost" if live - want else "missing"), dropped=dropped, mechanism=mech)
     for key, kind, prev in out.get("alt", []):
         if (kind == "A" and prev == "A") or (kind == "R" and prev != "A"):
             viol("c07.converged", "callbacks_do_not_alternate", "browser %d: %s(%s) after %s" % (key[0], kind, key[1], prev), dropped=dropped)
@@ -277,6 +287,53 @@ def judge(res: Result, sc: Dict[str, Any], out: Dict[str, Any], viol, dropped: s
         if not ok:
             viol("c07.lookup", "lookup_wrong_data", "lookup for %s resolved %r, advertised versions %r" % (lk["name"], {k: (sorted(v) if isinstance(v, set) else v) for k, v in f.items()},
                                                                                                           [(s.server, s.port, s.text, sorted(s.addrs4 + s.addrs6)) for _, s in vers]), dropped=dropped)
+
+
+def ghost_mechanism(out: Dict[str, Any], host: str, type_: str, ghosts: List[str]) -> str:
+    """Classify why a withdrawn instance is still reported (for the known-findings match; no seeds or values involved).
+    'goodbye_repeats_suppressed_as_duplicates': at the browsing host a positive-TTL PTR of the instance was processed AFTER the
+    first goodbye, and every goodbye delivered after it was byte-identical to the datagram last processed on its socket less
+    than a second before - i.e. dropped by the listener's duplicate-datagram guard (which keeps its state per socket)."""
+    verdicts = []
+    for g in ghosts:
+        last_on_fd: Dict[int, Tuple[bytes, float]] = {}
+        first_goodbye = None
+        positive_after = None
+        goodbye_processed_after_positive = False
+        goodbye_seen_after_positive = False
+        for d in out.get("deliveries", []):
+            if d["host"] != host:
+                continue
+            prev = last_on_fd.get(d["fd"])
+            dup = prev is not None and prev[0] == d["data"] and d["t"] - 1000.0 < prev[1]
+            m, _ = wire.try_parse(d["data"], strict=False)
+            has_qu = bool(m and any(q.cls & 0x8000 for q in m.questions))
+            if dup and not has_qu:
+                processed = False
+            else:
+                processed = True
+                last_on_fd[d["fd"]] = (d["data"], d["t"])
+            if m is None or not m.is_response:
+                continue
+            for r in m.answers + m.additionals:
+                ident = R.ident_of_wire(r)
+                if ident[0] == "PTR" and ident[1] == type_.lower() and ident[2][0] == g:
+                    if r.ttl == 0:
+                        if first_goodbye is None and processed:
+                            first_goodbye = d["t"]
+                        if positive_after is not None:
+                            goodbye_seen_after_positive = True
+                            if processed:
+                                goodbye_processed_after_positive = True
+                    elif processed and first_goodbye is not None:
+                        positive_after = d["t"]
+                        goodbye_seen_after_positive = False
+                        goodbye_processed_after_positive = False
+        if positive_after is not None and goodbye_seen_after_positive and not goodbye_processed_after_positive:
+            verdicts.append("goodbye_repeats_suppressed_as_duplicates")
+        else:
+            verdicts.append("other")
+    return verdicts[0] if len(set(verdicts)) == 1 else "mixed"
 
 
 def txt_may_have_expired(lk: Dict[str, Any], vers: List[Tuple[float, Svc]]) -> bool:
@@ -365,4 +422,28 @@ def replay(blob):
         run = execute(sc, blob["seed"], drop[0], drop[1])
         judge(res, sc, run, viol, "replay", "one receiver" if drop[1] else "all receivers")
     res.evaluations = 1
+    return res
+
+
+def witness_scenario() -> Dict[str, Any]:
+    """Stored witness of known finding F15 (no loss, reordering only): the owner (split sockets) answers its own third probe by
+    unicast; that reply (80 ms) is overtaken by the first goodbye (10 ms) of an unregister issued 50 ms later; goodbyes 2 and 3
+    are byte-identical to goodbye 1 and are dropped by the duplicate-datagram guard of the listen socket, so the PTR re-added
+    by the late unicast reply stays cached and a browser started later on that host reports the withdrawn service."""
+    s = Svc("_http._tcp.local.", "witness._http._tcp.local.", "witness-host.local.", 80, b"", [b"\x0a\x00\x00\x02"], [], 120, 4500)
+    return {"hosts": [{"name": "H0", "ip4": "10.0.0.1", "ip6": None, "layout": "single"}, {"name": "H1", "ip4": "10.0.0.2", "ip6": None, "layout": "split"}],
+            "ops": [{"t": 100.0, "op": "register", "host": 1, "svc": 0, "spec": s}, {"t": 500.0, "op": "unregister", "host": 1, "svc": 0},
+                    {"t": 3000.0, "op": "browse", "host": 1, "type": "_http._tcp.local.", "bid": 0}],
+            "dup_p": 0.0, "max_delay": 100.0, "witness_policy": {"unicast_ms": 80.0, "multicast_ms": 10.0}}
+
+
+def witnesses(spec):
+    res = Result()
+    sc = witness_scenario()
+
+    def viol(monitor: str, kind: str, detail: str, **sig: Any) -> None:
+        res.violation(monitor, kind, detail, sig, {"witness": "F15"})
+    run = execute(sc, 15, None, None)
+    res.evaluations = 1
+    judge(res, sc, run, viol, "none", "-")
     return res
